@@ -96,4 +96,23 @@ def conferDirect (hoisted : Bool) (pv : ParentView) (d : DelegationRow) : Option
   let actions := d.actions.filter test
   if actions.isEmpty then none else some (delegatedCandidate d actions)
 
+/-! ## 5. the bound of a re-delegated link: the child's own list guarded by containment, or the intersection
+
+rows.rs also offers `AuthorityScope::intersect` / `AuthorityConstraints::tighten` ("the effective bound of a
+chain"), built on `intersect(a, b)`: an empty side means "no restriction" and yields the other side. The
+re-delegation branch of `resolve_delegation` does NOT use them: it keeps the child's own list and refuses
+the link unless the parent's list contains it. The difference is the empty intersection: under "empty =
+every value" the intersection of two non-empty disjoint lists — which must stand for *nothing* — reads as
+*everything*. -/
+
+/-- `intersect(a, b)` of rows.rs. -/
+def intersectBound (a b : List String) : List String :=
+  if a.isEmpty then b else if b.isEmpty then a else a.filter (fun v => b.contains v)
+
+/-- The list a re-delegated link is bounded by on one dimension: `none` = the link confers nothing.
+`byIntersection = false` is the code (child's own list, guarded by `narrows`); `true` is the intersecting form. -/
+def linkBound (byIntersection : Bool) (parent child : List String) : Option (List String) :=
+  if byIntersection then some (intersectBound parent child)
+  else if narrows parent child then some child else none
+
 end AndaVerif.Authz
